@@ -5,7 +5,9 @@ PROP = dict(
     coq_header=LC_HEADER % 'C02',
     case_type='LC.case', verdict='C02.verdict',
     rule='histories of 1..8 structural commands (init/add/rename/rebase/remove/mkdirs/list) with names from '
-         '{existing, legal new, illegal, empty, very long, ~removed} on generated forests of up to 6 layers; every '
+         '{existing, legal new, illegal, empty, very long, ~removed} on generated forests of up to 6 layers; every sixth '
+         'case a history around `add -configfile F` with F = the layerconfig of a removed / live layer or a hand-written '
+         'template whose `base` line names an existing, removed, non-existent or illegal layer; every '
          'step is replayed by the Gallina model from the observed world before it. Non-trivial: some step changes '
          'the tree or is refused; distinct by the whole input',
     explanation='per step Coq evaluates: model step = observed step (result class, operation log, file tree, kernel table, '
